@@ -309,6 +309,9 @@ C03(scn, obs) ==
       (IF PassThru(scn) THEN {} ELSE
          (IF c.extraheads = 0 THEN {} ELSE {"C03.OneHead"})
          \cup (IF c.problems = <<>> THEN {} ELSE {"C03.Framable"})
+         \* fields that are not legal on the wire are dropped by the HTTP stack: a faithful
+         \* backend's response must not be turned into any
+         \cup (IF c.dropped = <<>> \/ HandlerFaulty(scn) \/ ClientFaulty(scn) THEN {} ELSE {"C03.NoIllegalFields"})
          \cup (IF c.clen >= 0 => c.clen = c.bodylen THEN {} ELSE {"C03.ContentLength"}))
       \cup
       \* (when the backend breaks off or lies inside a frame that is already being streamed to the
